@@ -121,6 +121,9 @@ class Obj(Gen):
             b.assume(self.inv(o))
         return o
 
+    def realize(self, v: Any, ev: Any, ctx: dict) -> Any:
+        return concretize(v, ev, True)
+
 
 class Builder:
     def __init__(self, choice: dict[str, int] | None = None) -> None:
